@@ -37,6 +37,7 @@ inductive FileContent
   | idl (text : String)
   | ext (defs : List ExtDef)      -- a YAML file that validates against the external-type model
   | badExt                        -- a YAML file that does not (InputParsingException)
+  | notText (pos : Pos)           -- bytes that are not valid UTF-8; `pos` = the first undecodable byte
 deriving Repr, Inhabited
 
 structure FS where
@@ -186,6 +187,8 @@ def parseOne (cfg : Cfg) (fs : FS) : Nat → ParseFn
           match doLoads cfg fs (parseOne cfg fs fuel) (stack ++ [file]) file spelled loads {} st with
           | .error a => .error a
           | .ok (res, st) => finishFile cfg file contents res st
+    | some (.notText pos) =>
+      .ok ({ errors := [{ cls := "ParsingException", rule := "not-utf8", file := showPath file, pos := pos }] }, st)
     | _ => .error (.fileNotFound (showPath file))
 
 inductive Outcome
